@@ -13,12 +13,13 @@ EXTENDS Integers, Sequences, FiniteSets, TLC
 CONSTANTS MaxChildren, MaxSc, Mutant
 States == {"CONNECTING", "READY", "IDLE", "TF"}
 VARIABLES cur, pend, nextC, last, closing, closedC, scOwner, scShut,
-          fwdChild, fwdState, nfwd, gsbClosed, viol
-gvars == <<cur, pend, nextC, last, closing, closedC, scOwner, scShut, fwdChild, fwdState, nfwd, gsbClosed, viol>>
+          fwdChild, fwdState, nfwd, gsbClosed, viol,
+          inflight   \* child that is inside cc.NewSubConn right now (0 = none)
+gvars == <<cur, pend, nextC, last, closing, closedC, scOwner, scShut, fwdChild, fwdState, nfwd, gsbClosed, viol, inflight>>
 Children == 1..MaxChildren
 GInit == /\ cur = 0 /\ pend = 0 /\ nextC = 1 /\ last = [c \in Children |-> "CONNECTING"]
          /\ closing = <<>> /\ closedC = {} /\ scOwner = <<>> /\ scShut = {}
-         /\ fwdChild = 0 /\ fwdState = "none" /\ nfwd = 0 /\ gsbClosed = FALSE /\ viol = "none"
+         /\ fwdChild = 0 /\ fwdState = "none" /\ nfwd = 0 /\ gsbClosed = FALSE /\ viol = "none" /\ inflight = 0
 MarkV(c, n) == IF viol = "none" /\ c THEN n ELSE viol
 \* bw.Close(): child closed, its subconns shut down
 ShutOf(cs, shutSet) == shutSet \cup {i \in 1..Len(scOwner) : scOwner[i] \in cs}
@@ -31,13 +32,13 @@ SwitchTo ==
         ELSE /\ pend' = c /\ cur' = cur
              /\ IF pend # 0 THEN closedC' = closedC \cup {pend} /\ scShut' = ShutOf({pend}, scShut)
                             ELSE closedC' = closedC /\ scShut' = scShut
-  /\ UNCHANGED <<last, closing, scOwner, fwdChild, fwdState, nfwd, gsbClosed, viol>>
+  /\ UNCHANGED <<last, closing, scOwner, fwdChild, fwdState, nfwd, gsbClosed, viol, inflight>>
 \* swap(): forward pending's last state, promote, close old asynchronously
 DoSwap == /\ fwdChild' = pend /\ fwdState' = last'[pend] /\ nfwd' = nfwd + 1
           /\ closing' = Append(closing, cur) /\ cur' = pend /\ pend' = 0
 \* a live child calls UpdateState(s)
 ChildUpdate(c, s) ==
-  /\ c # 0 /\ c < nextC /\ c \notin closedC /\ s \in States
+  /\ c # inflight /\ c # 0 /\ c < nextC /\ c \notin closedC /\ s \in States
   /\ last' = [last EXCEPT ![c] = s]
   /\ IF gsbClosed \/ (c # cur /\ c # pend)
        THEN UNCHANGED <<cur, pend, closing, fwdChild, fwdState, nfwd, viol>>
@@ -50,27 +51,44 @@ ChildUpdate(c, s) ==
               IF s # "CONNECTING" \/ last[cur] # "READY"
                 THEN DoSwap /\ viol' = viol
                 ELSE UNCHANGED <<cur, pend, closing, fwdChild, fwdState, nfwd, viol>>
-  /\ UNCHANGED <<nextC, closedC, scOwner, scShut, gsbClosed>>
+  /\ UNCHANGED <<nextC, closedC, scOwner, scShut, gsbClosed, inflight>>
 \* the goroutine started by swap(): cur.Close() under currentMu.  The goroutines of successive
-\* swaps serialise on currentMu, so the children are closed one at a time, in swap order.
+\* swaps serialise on currentMu (one child is closed at a time); WHICH waiting goroutine gets the
+\* mutex next is up to the Go scheduler, so any child in the queue may be the next one closed.
+InClosing(c) == \E i \in 1..Len(closing) : closing[i] = c
 AsyncClose(c) ==
-  /\ closing # <<>> /\ c = Head(closing) /\ closing' = Tail(closing) /\ closedC' = closedC \cup {c} /\ scShut' = ShutOf({c}, scShut)
-  /\ UNCHANGED <<cur, pend, nextC, last, scOwner, fwdChild, fwdState, nfwd, gsbClosed, viol>>
+  /\ inflight = 0 /\ InClosing(c)
+  /\ closing' = SelectSeq(closing, LAMBDA x : x # c) /\ closedC' = closedC \cup {c} /\ scShut' = ShutOf({c}, scShut)
+  /\ UNCHANGED <<cur, pend, nextC, last, scOwner, fwdChild, fwdState, nfwd, gsbClosed, viol, inflight>>
 \* a live child calls NewSubConn; rejected unless it is current or pending
 NewSubConn(c) ==
-  /\ c # 0 /\ c < nextC /\ c \notin closedC /\ Len(scOwner) < MaxSc
+  /\ inflight = 0 /\ c # 0 /\ c < nextC /\ c \notin closedC /\ Len(scOwner) < MaxSc
   /\ IF c = cur \/ c = pend
        THEN scOwner' = Append(scOwner, c)
        ELSE UNCHANGED scOwner
-  /\ UNCHANGED <<cur, pend, nextC, last, closing, closedC, scShut, fwdChild, fwdState, nfwd, gsbClosed, viol>>
+  /\ UNCHANGED <<cur, pend, nextC, last, closing, closedC, scShut, fwdChild, fwdState, nfwd, gsbClosed, viol, inflight>>
 \* Balancer.Close(): closes current and pending and waits for the closing goroutines
 Close ==
-  /\ ~gsbClosed /\ gsbClosed' = TRUE
+  /\ inflight = 0 /\ ~gsbClosed /\ gsbClosed' = TRUE
   /\ LET cs == ({cur, pend} \ {0}) \cup {closing[i] : i \in 1..Len(closing)} IN
        /\ closedC' = closedC \cup cs /\ scShut' = ShutOf(cs, scShut)
   /\ cur' = 0 /\ pend' = 0 /\ closing' = <<>>
-  /\ UNCHANGED <<nextC, last, scOwner, fwdChild, fwdState, nfwd, viol>>
-GNext == SwitchTo \/ Close \/ (\E c \in Children : AsyncClose(c) \/ NewSubConn(c) \/ \E s \in States : ChildUpdate(c, s))
+  /\ UNCHANGED <<nextC, last, scOwner, fwdChild, fwdState, nfwd, viol, inflight>>
+\* The same call split in two, so that the child can be superseded WHILE it is inside the
+\* channel's NewSubConn: the wrapper re-checks afterwards and must shut the new subconn down.
+NewSubConnBegin(c) ==
+  /\ inflight = 0 /\ c # 0 /\ c < nextC /\ c \notin closedC /\ Len(scOwner) < MaxSc
+  /\ (c = cur \/ c = pend) /\ ~gsbClosed
+  /\ inflight' = c
+  /\ UNCHANGED <<cur, pend, nextC, last, closing, closedC, scOwner, scShut, fwdChild, fwdState, nfwd, gsbClosed, viol>>
+NewSubConnEnd ==
+  /\ inflight # 0
+  /\ scOwner' = Append(scOwner, inflight)
+  /\ scShut' = IF inflight = cur \/ inflight = pend THEN scShut ELSE scShut \cup {Len(scOwner) + 1}
+  /\ inflight' = 0
+  /\ UNCHANGED <<cur, pend, nextC, last, closing, closedC, fwdChild, fwdState, nfwd, gsbClosed, viol>>
+GNext == SwitchTo \/ Close \/ NewSubConnEnd
+         \/ (\E c \in Children : AsyncClose(c) \/ NewSubConn(c) \/ NewSubConnBegin(c) \/ \E s \in States : ChildUpdate(c, s))
 
 \* ---- Level A
 I_NoViol == viol = "none"
